@@ -156,7 +156,7 @@ def _build_and_audit(ctx, engine):
     tr_names = {sp["lean"] for sp in tr_specs}
     for n, a in thms_all.items():
         last = n.split(".")[-1]
-        if last.startswith("tr_") and last[3:] in tr_names:
+        if last.startswith("tr_") and any(last[3:] == nm or last[3:].startswith(nm + "_") for nm in tr_names):
             theorems[n] = a
     bad_ax = {n: a for n, a in theorems.items() if not set(a) <= common.ALLOWED_AXIOMS}
     if bad_ax:
